@@ -240,6 +240,7 @@ pub fn bcj_steps(rep: &mut Report, rng: &mut Rng, n: u64) {
 }
 
 pub fn run(rep: &mut Report, rng: &mut Rng, thorough: bool) {
+    crate::bcj2::run(rep, rng, thorough);
     bcj_steps(rep, rng, if thorough { 40000 } else { 4000 });
     let per = if thorough { 400 } else { 40 };
     for (ai, arch) in ARCHS.iter().enumerate() {
